@@ -2,6 +2,7 @@ package rules
 
 import (
 	"fmt"
+	"go/token"
 	"go/types"
 	"strings"
 
@@ -27,6 +28,8 @@ func init() {
 }
 
 func runC20(c *core.Ctx) {
+	c20NoSkippingInPlaceFilter(c)
+	c20RollbackSentinelPreserved(c)
 	const pkg = "process/sync"
 	fn := anchorM(c, pkg, "baseForkDetector", "CheckFork")
 	if fn == nil {
@@ -300,4 +303,119 @@ func phiConj(ph *ssa.Phi) (eqRound, strictHash bool) {
 		}
 	}
 	return
+}
+
+// c20RollbackSentinelPreserved: "no roll-back requested" is the value MaxUint64 of
+// fork.rollBackNonce, set by the constructors; CheckFork reports a fork at that nonce for any
+// smaller value. The fork record is therefore never replaced wholesale by a value that does not
+// carry the sentinel (a composite literal listing some fields zeroes the others).
+func c20RollbackSentinelPreserved(c *core.Ctx) {
+	const pkg = "process/sync"
+	n, sentinel := 0, 0
+	for _, fn := range c.P.FuncsOfPkg(pkg) {
+		core.Instrs(fn, func(in ssa.Instruction) {
+			st, ok := in.(*ssa.Store)
+			if !ok {
+				return
+			}
+			fa, ok := st.Addr.(*ssa.FieldAddr)
+			if !ok {
+				return
+			}
+			switch core.FieldOfAddr(fa).Name() {
+			case "rollBackNonce":
+				if k, isC := st.Val.(*ssa.Const); isC && k.Value != nil && k.Value.ExactString() == "18446744073709551615" {
+					sentinel++
+				}
+			case "fork":
+				n++
+				// the whole record is assigned: it must come from a literal that sets the sentinel
+				ok2 := false
+				if ld, isLd := st.Val.(*ssa.UnOp); isLd {
+					if al, isAl := ld.X.(*ssa.Alloc); isAl && al.Referrers() != nil {
+						for _, r := range *al.Referrers() {
+							if f2, isF := r.(*ssa.FieldAddr); isF && core.FieldOfAddr(f2).Name() == "rollBackNonce" && f2.Referrers() != nil {
+								for _, r2 := range *f2.Referrers() {
+									if s2, isS := r2.(*ssa.Store); isS {
+										if k, isC := s2.Val.(*ssa.Const); isC && k.Value != nil && k.Value.ExactString() == "18446744073709551615" {
+											ok2 = true
+										}
+									}
+								}
+							}
+						}
+					}
+				}
+				c.Check(ok2, "C20/rollback-sentinel-preserved", fmt.Sprintf("%s/fork-record-replaced#%d", fname(fn), n), st.Pos(),
+					"a replaced fork record carries rollBackNonce = MaxUint64",
+					fname(fn)+" replaces the whole fork record with a value whose rollBackNonce is not the MaxUint64 sentinel: the next CheckFork takes the roll-back branch and reports a fork at nonce 0 although nothing was requested")
+			}
+		})
+	}
+	c.Check(sentinel >= 2, "C20/rollback-sentinel-preserved", "constructors", 0,
+		"the fork detectors' constructors set the sentinel",
+		"the MaxUint64 sentinel of rollBackNonce is no longer set where the fork detectors are built")
+}
+
+// c20NoSkippingInPlaceFilter: the per-nonce header lists are filtered when the final checkpoint
+// moves. Deleting element i with append(s[:i], s[i+1:]...) inside a loop that then steps to i+1
+// never looks at the element that slid into slot i: with two competing invalid headers one of them
+// survives, which one depends on arrival order, and CheckFork reports it as a fork. No loop of the
+// fork detector deletes in place at its ascending index without re-examining that index.
+func c20NoSkippingInPlaceFilter(c *core.Ctx) {
+	const pkg = "process/sync"
+	bad, scanned := "", 0
+	for _, fn := range c.P.FuncsOfPkg(pkg) {
+		for _, l := range core.Loops(fn) {
+			// ascending induction variables: header phis whose only back-edge value is phi + 1
+			for _, in := range l.Header.Instrs {
+				ph, ok := in.(*ssa.Phi)
+				if !ok {
+					break
+				}
+				asc := true
+				back := 0
+				for i, e := range ph.Edges {
+					if !l.Body[l.Header.Preds[i]] {
+						continue
+					}
+					back++
+					bo, isBo := e.(*ssa.BinOp)
+					one := int64(0)
+					if isBo {
+						one, _ = core.ConstInt(bo.Y)
+					}
+					if !isBo || bo.Op != token.ADD || bo.X != ssa.Value(ph) || one != 1 {
+						asc = false
+					}
+				}
+				if !asc || back == 0 {
+					continue
+				}
+				scanned++
+				for b := range l.Body {
+					for _, x := range b.Instrs {
+						call, isCall := x.(*ssa.Call)
+						if !isCall || len(call.Call.Args) != 2 {
+							continue
+						}
+						if bi, isB := call.Call.Value.(*ssa.Builtin); !isB || bi.Name() != "append" {
+							continue
+						}
+						head, ok1 := call.Call.Args[0].(*ssa.Slice)
+						tail, ok2 := call.Call.Args[1].(*ssa.Slice)
+						if !ok1 || !ok2 || head.High != ssa.Value(ph) || tail.Low == nil {
+							continue
+						}
+						if lo, isBo := tail.Low.(*ssa.BinOp); isBo && lo.Op == token.ADD && lo.X == ssa.Value(ph) {
+							bad = fname(fn) + " at " + c.P.Pos(call.Pos())
+						}
+					}
+				}
+			}
+		}
+	}
+	c.Check(bad == "" && scanned > 0, "C20/no-skipping-in-place-filter", "process/sync", 0,
+		fmt.Sprintf("no in-place deletion at an ascending loop index (%d ascending loops examined)", scanned),
+		"an element is deleted in place with append(s[:i], s[i+1:]...) in a loop that always steps to i+1 ("+bad+"): the element that slides into slot i is never examined, so which of several invalid competing headers survives depends on arrival order and is then reported as a fork")
 }
